@@ -47,7 +47,7 @@ func sizeClass(n int) string {
 
 func execute(t *testing.T, c Case) (kind, detail string) {
 	res := bubble.Run(t, func() {
-		o := world.Options{Carrier: c.Carrier, Channels: []string{"x", "y"}}
+		o := world.Options{Carrier: c.Carrier, Channels: []string{"x", "y", "z"}}
 		switch c.Sec {
 		case "tls":
 			o.TLS, o.ServerCert, o.ClientKnowsCA = true, "good", true
@@ -69,7 +69,17 @@ func execute(t *testing.T, c Case) (kind, detail string) {
 			}
 		}
 		var otherApp, otherTgt *world.Endpoint
-		if c.Other == "refused-attempt" || c.Other == "idle-later" || c.Other == "busy-later" {
+		if c.Other == "failed-dial-before" {
+			// an EARLIER logical connection of this session asked for a channel whose target cannot be
+			// reached: it ends; the session and every later connection must be unaffected
+			w.Chan("z").Refuse = true
+			fa := w.OpenApp("z", nil)
+			step()
+			bubble.Advance(2 * time.Second)
+			fa.Close()
+			step()
+		}
+		if c.Other == "failed-dial-before" || c.Other == "refused-attempt" || c.Other == "idle-later" || c.Other == "busy-later" {
 			// handled below: the sibling is a connection ATTEMPT for a channel the server does not offer,
 			// made while the connection under test is open
 		} else if c.Other != "none" {
@@ -214,7 +224,7 @@ func execute(t *testing.T, c Case) (kind, detail string) {
 					}
 				}
 				allowed := 0
-				if c.Other != "none" && c.Other != "refused-attempt" {
+				if c.Other != "none" && c.Other != "refused-attempt" && c.Other != "failed-dial-before" {
 					allowed = 2
 				}
 				if n > allowed {
@@ -225,7 +235,7 @@ func execute(t *testing.T, c Case) (kind, detail string) {
 				kind, detail = "never-terminates", "the client's handler for the finished logical connection never returned"
 			}
 		}
-		if kind == "" && c.Other != "none" && c.Other != "refused-attempt" {
+		if kind == "" && c.Other != "none" && c.Other != "refused-attempt" && c.Other != "failed-dial-before" {
 			a, g := otherApp.Obs(), otherTgt.Obs()
 			if a.EOF || a.Err != "" || g.EOF || g.Err != "" {
 				kind, detail = "collateral-close", fmt.Sprintf("the other logical connection ended too: app=%v tgt=%v", a, g)
@@ -268,7 +278,10 @@ func cases(thorough bool) []Case {
 					if pos == "halfclose-stalled" && (n > 40000 || n == 4096) {
 						continue
 					}
-					for _, other := range []string{"none", "idle", "busy", "refused-attempt", "idle-later", "busy-later"} {
+					for _, other := range []string{"none", "idle", "busy", "refused-attempt", "idle-later", "busy-later", "failed-dial-before"} {
+						if other == "failed-dial-before" && !thorough && (n > 4096 || pos == "paused") {
+							continue
+						}
 						if other == "busy" && !thorough && x.sec != "plain" {
 							continue
 						}
